@@ -21,6 +21,7 @@ macro_rules! props {
 props! {
     "C14" => props::c14::C14,
     "C15" => props::c15::C15,
+    "C16" => props::c16::C16,
     "C17" => props::c17::C17,
 }
 
